@@ -20,6 +20,9 @@ pub enum Cause {
     Fork,
     /// the j-th pipe() of the whole start-up fails with EMFILE (k = j here)
     Pipe,
+    /// the parent's read of the k-th command's exec status is interrupted by a
+    /// signal handler (EINTR); the command itself may well be running by then
+    StatusRead,
 }
 #[derive(Clone, Copy, Debug, PartialEq, Serialize, Deserialize)]
 pub enum SIn {
@@ -56,6 +59,9 @@ pub struct FailCase {
     /// lines the started commands write to standard error before reading their input
     #[serde(default)]
     pub err_lines: u32,
+    /// every command asks for setuid/setgid to the current (root) identity
+    #[serde(default)]
+    pub ids: bool,
 }
 
 pub fn compatible(stdin: SIn, term: STerm) -> bool {
@@ -82,6 +88,10 @@ fn build_and_run(case: &FailCase, helper: std::path::PathBuf, markers: std::path
         };
         if case.detached {
             e = e.detached();
+        }
+        if case.ids {
+            use subprocess::ExecExt;
+            e = e.setuid(0).setgid(0);
         }
         cmds.push(e);
     }
@@ -183,7 +193,7 @@ pub fn check_case(ctx: &Ctx, case: &FailCase, rep: &mut CaseReport) -> CaseResul
     let fail = |sig: &str, msg: String| Err(Fail::new(format!("C14:{}", sig), format!("{}\ncase={:?}", msg, case)));
 
     if case.k >= 1 || case.cause == Cause::Pipe {
-        rep.nontrivial(format!("n{}|k{}|{:?}|{:?}|{:?}|det{}|linger{}|igterm{}|errlines{}", case.n, case.k, case.cause, case.stdin, case.term, case.detached as u8, case.linger_ms, case.ign_term as u8, case.err_lines));
+        rep.nontrivial(format!("n{}|k{}|{:?}|{:?}|{:?}|det{}|linger{}|igterm{}|errlines{}|ids{}", case.n, case.k, case.cause, case.stdin, case.term, case.detached as u8, case.linger_ms, case.ign_term as u8, case.err_lines, case.ids as u8));
     }
 
     let before = fd_snapshot();
@@ -194,11 +204,23 @@ pub fn check_case(ctx: &Ctx, case: &FailCase, rep: &mut CaseReport) -> CaseResul
         Cause::Missing => {}
         Cause::Fork => ip::fault_arm(ip::K_FORK, case.k as u32 + 1, libc::EAGAIN, false),
         Cause::Pipe => ip::fault_arm(ip::K_PIPE, case.k as u32 + 1, libc::EMFILE, false),
+        Cause::StatusRead => ip::fault_arm(ip::K_READ, case.k as u32 + 1, libc::EINTR, false),
     }
     ip::COUNTING.store(true, SeqCst);
     let c2 = case.clone();
     let (h2, m2, i2) = (helper.clone(), markers.clone(), infile.clone());
-    let out = hang::run(move || build_and_run(&c2, h2, m2, i2), 20_000);
+    let out = hang::run(
+        move || {
+            // read() faults are counted for this thread only (the deadlock monitor reads /proc meanwhile)
+            if c2.cause == Cause::StatusRead {
+                ip::FAULT_TID.store(unsafe { libc::syscall(libc::SYS_gettid) } as i32, SeqCst);
+            }
+            let r = build_and_run(&c2, h2, m2, i2);
+            ip::FAULT_TID.store(0, SeqCst);
+            r
+        },
+        20_000,
+    );
     ip::COUNTING.store(false, SeqCst);
     let fault_hit = ip::FAULT_HIT.load(SeqCst);
     ip::fault_disarm();
@@ -218,6 +240,19 @@ pub fn check_case(ctx: &Ctx, case: &FailCase, rep: &mut CaseReport) -> CaseResul
             return Ok(());
         }
     };
+    if case.cause == Cause::StatusRead && res.ok {
+        // the interruption was absorbed (retried): the pipeline simply ran
+        if case.detached {
+            drain_children(10_000);
+        }
+        reap_all();
+        let after = fd_snapshot();
+        let d = fd_diff(&before, &after, false);
+        if !d.is_empty() {
+            return fail("fd-leak", d.join("; "));
+        }
+        return Ok(());
+    }
     if case.cause != Cause::Missing && fault_hit == 0 {
         // ordinal beyond what this configuration uses: nothing failed, nothing to judge
         if !res.ok {
@@ -241,6 +276,7 @@ pub fn check_case(ctx: &Ctx, case: &FailCase, rep: &mut CaseReport) -> CaseResul
         Cause::Missing => libc::ENOENT,
         Cause::Fork => libc::EAGAIN,
         Cause::Pipe => libc::EMFILE,
+        Cause::StatusRead => libc::EINTR,
     };
     if os != Some(want_errno) {
         reap_all();
@@ -259,6 +295,12 @@ pub fn check_case(ctx: &Ctx, case: &FailCase, rep: &mut CaseReport) -> CaseResul
             if forks.len() != case.k + 1 || forks.last().map(|r| r.ret) != Some(-1) {
                 reap_all();
                 return fail("later-command-started", format!("{} fork calls, expected {} with the last one failing", forks.len(), case.k + 1));
+            }
+        }
+        Cause::StatusRead => {
+            if forks.len() != case.k + 1 {
+                reap_all();
+                return fail("later-command-started", format!("{} fork calls, expected {} (status read of command {} interrupted)", forks.len(), case.k + 1, case.k));
             }
         }
         Cause::Pipe => {
@@ -287,6 +329,12 @@ pub fn check_case(ctx: &Ctx, case: &FailCase, rep: &mut CaseReport) -> CaseResul
     if st[first_not..].iter().any(|s| *s) {
         return fail("later-command-started", format!("started markers {:?}", st));
     }
+    if case.cause == Cause::StatusRead {
+        // the interrupted command itself may have started
+        if first_not > case.k + 1 {
+            return fail("later-command-started", format!("started markers {:?}, interrupted position {}", st, case.k));
+        }
+    }
     if case.cause == Cause::Missing && first_not > case.k {
         return fail("later-command-started", format!("started markers {:?}, failing position {}", st, case.k));
     }
@@ -302,7 +350,7 @@ pub fn check_case(ctx: &Ctx, case: &FailCase, rep: &mut CaseReport) -> CaseResul
 pub fn enumerate(tier: Tier) -> Vec<FailCase> {
     let mut v = vec![];
     let maxn = tier.pick(5, 6);
-    let causes: Vec<Cause> = if tier == Tier::Thorough { vec![Cause::Missing, Cause::Fork, Cause::Pipe] } else { vec![Cause::Missing, Cause::Fork] };
+    let causes: Vec<Cause> = if tier == Tier::Thorough { vec![Cause::Missing, Cause::Fork, Cause::StatusRead, Cause::Pipe] } else { vec![Cause::Missing, Cause::Fork, Cause::StatusRead] };
     for n in 2..=maxn {
         for cause in &causes {
             let kmax = if *cause == Cause::Pipe { 2 * n + 2 } else { n };
@@ -313,15 +361,19 @@ pub fn enumerate(tier: Tier) -> Vec<FailCase> {
                             continue;
                         }
                         for detached in [false, true] {
-                            v.push(FailCase { n, k, cause: *cause, stdin, term, detached, linger_ms: 0, ign_term: false, err_lines: 0 });
+                            v.push(FailCase { n, k, cause: *cause, stdin, term, detached, linger_ms: 0, ign_term: false, err_lines: 0, ids: false });
+                        }
+                        if *cause == Cause::Missing {
+                            // commands that also change identity (to the identity they already have)
+                            v.push(FailCase { n, k, cause: *cause, stdin, term, detached: false, linger_ms: 0, ign_term: false, err_lines: 0, ids: true });
                         }
                         // started commands that take their time, ignore SIGTERM, or have
                         // filled the shared stderr pipe before the failure is noticed
                         if k >= 1 && *cause == Cause::Missing && (n <= 3 || tier == Tier::Thorough) {
-                            v.push(FailCase { n, k, cause: *cause, stdin, term, detached: false, linger_ms: 300, ign_term: false, err_lines: 0 });
-                            v.push(FailCase { n, k, cause: *cause, stdin, term, detached: false, linger_ms: 600, ign_term: true, err_lines: 0 });
+                            v.push(FailCase { n, k, cause: *cause, stdin, term, detached: false, linger_ms: 300, ign_term: false, err_lines: 0, ids: false });
+                            v.push(FailCase { n, k, cause: *cause, stdin, term, detached: false, linger_ms: 600, ign_term: true, err_lines: 0, ids: false });
                             if matches!(term, STerm::Capture | STerm::Communicate) {
-                                v.push(FailCase { n, k, cause: *cause, stdin, term, detached: false, linger_ms: 0, ign_term: false, err_lines: 15000 });
+                                v.push(FailCase { n, k, cause: *cause, stdin, term, detached: false, linger_ms: 0, ign_term: false, err_lines: 15000, ids: false });
                             }
                         }
                     }
